@@ -108,6 +108,11 @@ func (ex *Exec) findLocalAt(fr *Frame, li *loopInfo, at token.Pos, name string) 
 		}
 	}
 	if len(cands) == 0 {
+		// the function has no variable of that name (any more): the recorded position may tell which one is meant
+		if a := ex.prog.renamedLocal(fr.fn, name); a != nil {
+			ex.vc.Assumptions[fmt.Sprintf("local %s of %s is the variable the contract calls %s (matched by recorded position and type)", a.Comment, fr.fn.Name(), name)] = true
+			return a
+		}
 		return nil
 	}
 	if len(cands) == 1 {
